@@ -71,7 +71,8 @@ pub fn spawn_workers(
     label: &str,
 ) -> Vec<WorkerOut> {
     let root = verif_root();
-    let work = format!("{}/sim/work", root);
+    // per-driver directory: two checks may run at the same time
+    let work = format!("{}/sim/work/run-{}", root, std::process::id());
     std::fs::create_dir_all(&work).ok();
     let mut kids = Vec::new();
     for w in 0..nw {
@@ -116,6 +117,7 @@ pub fn spawn_workers(
         }
         let _ = std::fs::remove_file(&out);
     }
+    let _ = std::fs::remove_dir(&work);
     if bad {
         std::process::exit(2);
     }
